@@ -349,6 +349,34 @@ theorem detect_html_doctype (ws d rest : Str) (zip : Option (List Member))
 example : (∀ c ∈ [13, 10, 32], isMagicWS c = true) ∧
     upper [60, 33, 100, 111, 99, 116, 121, 112, 101, 32, 104, 116, 109, 108] = sDoctypeHtml := by decide
 
+/-- the same for every way of separating the keyword from the name: white space,
+`<!DOCTYPE` in any letter case, ANY non-empty run of white space (blank, tab, LF, FF, CR),
+`html` in any letter case, then anything (legacy strings, the rest of the document), is HTML
+(the declaration up to the name must lie within the 512 bytes the sniffer reads) -/
+theorem detect_html_doctype_any_space (lead d ws n rest : Str) (zip : Option (List Member))
+    (hl : ∀ c ∈ lead, isMagicWS c = true) (hd : upper d = sDoctype)
+    (hne : ws ≠ []) (hws : ∀ c ∈ ws, isMagicWS c = true) (hn : upper n = sHtmlName)
+    (hlen : lead.length + d.length + ws.length + n.length ≤ 512) :
+    detectFromReader (lead ++ (d ++ (ws ++ (n ++ rest)))) zip = some .html := by
+  unfold detectFromReader
+  have e : lead ++ (d ++ (ws ++ (n ++ rest))) = (lead ++ (d ++ (ws ++ n))) ++ rest := by simp
+  have ht : (lead ++ (d ++ (ws ++ (n ++ rest)))).take 512 =
+      lead ++ (d ++ (ws ++ (n ++ rest.take (512 - (lead ++ (d ++ (ws ++ n))).length)))) := by
+    rw [e, take_append_short (lead ++ (d ++ (ws ++ n))) rest 512 (by simp; omega)]
+    simp
+  rw [ht]
+  obtain ⟨h1, h2⟩ := not_pdf_zip_prefix_doctype lead d
+    (ws ++ (n ++ rest.take (512 - (lead ++ (d ++ (ws ++ n))).length))) hl hd
+  dsimp only
+  rw [h1, h2, detectHTMLMagic_doctype_ws lead d ws n _ hl hd hne hws hn]
+  rfl
+
+/-- satisfiable: `"\f\n"`, `"<!doctype"`, `"\r\n\t"`, `"Html"` -/
+example : (∀ c ∈ [12, 10], isMagicWS c = true) ∧
+    upper [60, 33, 100, 111, 99, 116, 121, 112, 101] = sDoctype ∧
+    ([13, 10, 9] : Str) ≠ [] ∧ (∀ c ∈ [13, 10, 9], isMagicWS c = true) ∧
+    upper [72, 116, 109, 108] = sHtmlName := by decide
+
 /-! ## admission -/
 
 /-- `admission`: a reader is opened only for the format the NAME asks for, and only if
